@@ -14,8 +14,10 @@ performed *inside* the callback, or "propagate" = leave the callback with the ex
 raised).  Asynchronous mode: the harness thread and the worker run in lock-step (one command, one
 acknowledgement); the worker thread is joined before anything is read after return/raise.  Synchronous
 mode: no second thread at all — the whole in-flight part of the word is queued before `execute_sync`
-is called and the acknowledgements are collected afterwards.  Time-outs exist only as hang detectors
-(a hang is reported, never waited out as a pass) — nothing sleeps and hopes.
+is called and the acknowledgements are collected afterwards.  Nothing sleeps: every hand-over is a blocking
+queue operation or a `Thread.join`.  Time-outs (WAIT = 120 s per acknowledgement) exist only as hang detectors;
+a time-out raises `HarnessTimeout`, which ends the run with exit 2 (harness problem) — it is never turned
+into a VIOLATION and never waited out as a pass.
 
 Named residue: the atomic steps are whole API calls and whole task steps.  Races *inside* one Python API
 call (bytecode interleavings on the shared JobStatus, e.g. a status query between `start_run()` and
@@ -32,7 +34,13 @@ import threading
 
 from . import core
 
-WAIT = 30.0          # hang detector for one acknowledgement / one join (seconds)
+WAIT = 120.0         # hang detector for one acknowledgement / one join (seconds); generous: the machine may be
+                     # heavily loaded.  A time-out is a HARNESS problem (HarnessTimeout -> exit 2), never a verdict.
+
+
+class HarnessTimeout(Exception):
+    """An acknowledgement or a join did not arrive within WAIT seconds: the lock-step protocol lost the worker.
+    Raised out of `run`/`replay` (harness/main.py turns it into exit 2); never reported as a VIOLATION."""
 
 # ------------------------------------------------------------------------------------------------
 # tables (the Lean model only sees the numbers)
@@ -425,12 +433,16 @@ class Runner:
                     while not self.acks.empty():
                         self.acks.get_nowait()
                     self.pushback = None
+                    if any(outs[x] is not None and outs[x]["o"] != mouts[x]["o"] for x in [i] + seg):
+                        break              # the code left the model's path: what follows cannot be driven
                     i = (seg[-1] + 1) if seg else i + 1
                     continue
                 outs[i] = self.perform(ev) if k in ("status", "cancel", "get", "async") else {"o": "not-executable"}
                 if k == "async" and outs[i]["o"] == "accepted":
                     phase = "async"
                     self.async_accepted = True
+                if outs[i]["o"] != mouts[i]["o"]:
+                    break
                 i += 1
                 continue
             # asynchronous flight, lock-step
@@ -440,6 +452,8 @@ class Runner:
                     outs[i] = self.flight_step(ev, st, None)
                 else:
                     outs[i] = self.perform(ev)
+                if outs[i]["o"] != mouts[i]["o"]:
+                    break                  # e.g. a second execute accepted: stop, abort the worker, report
                 i += 1
                 continue
             c = self.cmd_of(ev)
@@ -458,6 +472,8 @@ class Runner:
             outs[i] = self.flight_step(ev, st, finish)
             if outs[i]["o"] in ("finished", "hang"):
                 phase = "top"
+            if outs[i]["o"] != mouts[i]["o"]:
+                break
             i += 1
         for x in range(n):
             if outs[x] is None:
@@ -555,8 +571,8 @@ def compare(word, outs, final, rep):
 # ------------------------------------------------------------------------------------------------
 def direct_oracle(cfg, word, outs, final, hung):
     """Returns (signature, what) for the first clause of the property that the observed history breaks."""
-    if hung:
-        return "hang", "the job never reached the commanded step (hang detector fired)"
+    if hung:          # not reachable through `judge` (which raises HarnessTimeout first); kept as a safety net
+        raise HarnessTimeout("hang detector fired")
     accepted = None          # 'sync' | 'async'
     ended = None             # 'ret' | 'raise' | 'propagate'
     cancel_before_end = False
@@ -670,6 +686,9 @@ def judge(chk, scn, rep=None):
         rep = trace(chk, scn)
     runner = Runner(scn["cfg"])
     outs, final = runner.run(scn["word"], rep["outs"])
+    if runner.hung:
+        raise HarnessTimeout(f"no acknowledgement from the controlled task within {WAIT} s while executing "
+                             f"{[e['e'] for e in scn['word']]} (cfg {scn['cfg']}); outputs so far {outs}")
     diff = compare(scn["word"], outs, final, rep)
     if diff is None and not runner.hung:
         return None
@@ -706,6 +725,8 @@ def shrink(chk, scn, sig):
                 if not is_closed(rep["final"]) or any(o["o"] == "disabled" for o in rep["outs"]):
                     continue        # keep the history executable as written
                 r = judge(chk, cand, rep)
+            except HarnessTimeout:
+                raise
             except Exception:
                 r = None
             if r is not None and r[1] == sig:
@@ -980,11 +1001,6 @@ def nontrivial(rep):
 class Seen:
     def __init__(self):
         self.sigs = {}
-        self.hangs = 0
-
-
-class StopRun(Exception):
-    pass
 
 
 def handle(chk, scn, seen, rep=None):
@@ -992,10 +1008,6 @@ def handle(chk, scn, seen, rep=None):
         rep = trace(chk, scn)
     note_branches(chk, scn, rep)
     res = judge(chk, scn, rep)
-    if res is not None and res[1] == "hang":
-        global WAIT
-        seen.hangs += 1
-        WAIT = 3.0
     chk.case(word_sig(scn), nontrivial=nontrivial(rep),
              sample={"cfg": scn["cfg"], "word": [e["e"] for e in scn["word"]]})
     if res is None:
@@ -1011,8 +1023,6 @@ def handle(chk, scn, seen, rep=None):
     if r2 is not None and r2[1] == sig:
         what = r2[2]
     chk.fail(kind, sig, what, small)
-    if seen.hangs >= 3:
-        raise StopRun()
 
 
 def plain_scenarios(chk, seen):
@@ -1047,8 +1057,11 @@ def plain_scenarios(chk, seen):
                 entered.clear()
                 del worker[:]
                 job.execute_async(3)
-                if entered.wait(WAIT):
-                    worker[0].join(WAIT)
+                if not entered.wait(WAIT):
+                    raise HarnessTimeout("plain scenario: the worker thread did not enter the task")
+                worker[0].join(WAIT)
+                if worker[0].is_alive():
+                    raise HarnessTimeout("plain scenario: the worker thread did not finish")
                 res = job.get_results() if job.is_complete else "not complete"
             st = job.status
             ok = st() == "SUCCESS" and res == {"results": [0, 1, 4]} and [p for p, _ in seen_log] == [1 / 3, 2 / 3, 1.0]
@@ -1124,7 +1137,7 @@ def run(chk: core.Check):
     # exhaustive interleavings
     # (task events incl. start and end, caller actions); the first (positional) configuration gets the
     # large bound, the two other ways of passing the argument a smaller one
-    full = {"sync": chk.pick((4, 3), (5, 4)), "async": chk.pick((3, 3), (5, 3))}
+    full = {"sync": chk.pick((4, 3), (5, 4)), "async": chk.pick((3, 2), (5, 3))}
     side = {"sync": chk.pick((3, 2), (4, 3)), "async": chk.pick((3, 2), (4, 2))}
     bounds = {}
     total = 0
@@ -1149,7 +1162,7 @@ def run(chk: core.Check):
     chk.extra["exhaustive_closed_words"] = total
     chk.exhaustive = True
     # random longer histories
-    n = chk.pick(400, 6000)
+    n = chk.pick(800, 4000)
     max_len = chk.pick(14, 40)
     for _ in range(n):
         cfg = rand_cfg(rng)
